@@ -131,14 +131,15 @@ def eval_case(kind, cfg, game, ranks, perms, player_perms=False, enc="ranks"):
 def plan(ctx):
     """(space, cfg, which perms, player perms)"""
     out = [("T3", "K0", "all", False), ("T4|V4", "K0", "all", False), ("T4", "K0", "adjacent", False),
-           ("P2", "K0", "none", True), ("P3", "K0", "adjacent", True), ("T3|V6", "K5", "all", False), ("T3|V6", "K8", "all", False)]
+           ("P2", "K0", "none", True), ("P3", "K0", "adjacent", True), ("T3|V6", "K5", "all", False), ("T3|V6", "K8", "all", False),
+           ("T5|V2", "K0", "adjacent", False), ("D7b1", "K0", "adjacent", False)]
     if ctx.thorough:
         out += [("T4", "K0", "all", False), ("T5|V2", "K0", "all", False), ("T5|V3", "K0", "adjacent", False), ("T6|V2", "K0", "adjacent", False),
                 ("D7", "K0", "adjacent", False), ("D8", "K0", "adjacent", False), ("T3", "K2", "all", False), ("T3", "K4", "all", False), ("T3", "K7", "all", False)]
     return out
 
 
-PARTS = {"T3": 8, "T4|V4": 16, "T4": 32, "P2": 12, "P3": 8, "T3|V6": 2, "T5|V2": 8, "T5|V3": 24, "T6|V2": 48, "D7": 32, "D8": 96}
+PARTS = {"D7b1": 8, "T3": 8, "T4|V4": 16, "T4": 32, "P2": 12, "P3": 8, "T3|V6": 2, "T5|V2": 8, "T5|V3": 24, "T6|V2": 48, "D7": 32, "D8": 96}
 
 
 def units(ctx):
